@@ -18,7 +18,11 @@ for meta in selftest/mutants/*.json; do
   if ! (cd "$scratch/repo" && patch -p1 -s < "/verif/$patch"); then echo "SELFTEST-ERROR $meta: patch does not apply"; fail=1; continue; fi
   out=$(bin/govc check -repo "$scratch/repo" -no-evidence -tier quick "$prop" 2>&1); rc=$?
   n=$((n+1))
-  if [ "$kind" = "control" ]; then
+  if [ "$kind" = "drift" ]; then
+    # a harmless edit that renames something the contracts mention: the check must say it cannot
+    # decide (exit 2, CONTRACT-DRIFT) and must not print a VIOLATION line
+    if [ $rc -ne 2 ] || echo "$out" | grep -q '^VIOLATION' || ! echo "$out" | grep -q 'CONTRACT-DRIFT'; then echo "SELFTEST-FAIL $(basename $meta): expected exit 2 with CONTRACT-DRIFT and no VIOLATION, got rc=$rc"; echo "$out" | grep -E 'VIOLATION|ENGINE' | head -5; fail=1; else echo "ok   $(basename $meta) (undecided: contract drift reported, no alarm)"; fi
+  elif [ "$kind" = "control" ]; then
     if [ $rc -ne 0 ]; then echo "SELFTEST-FAIL $(basename $meta): negative control raised rc=$rc"; echo "$out" | grep -E 'VIOLATION|ENGINE' | head -5; fail=1; else echo "ok   $(basename $meta) (control stays green)"; fi
   else
     if [ $rc -ne 1 ] || ! echo "$out" | grep VIOLATION | grep -qF -- "$expect"; then echo "SELFTEST-FAIL $(basename $meta): rc=$rc, expected VIOLATION naming '$expect'"; echo "$out" | grep -E 'VIOLATION|ENGINE' | head -5; fail=1; else echo "ok   $(basename $meta) killed by $(echo "$out" | grep VIOLATION | grep -F -- "$expect" | head -1 | sed 's/.*obligation=//' | cut -c1-110)"; fi
